@@ -25,8 +25,18 @@ def other_data(entry, rng):
     return entry.data(rng)
 
 
-def scenario(hist, entry, rng):
-    a = entry.make(rng.randint(0, 1))
+def reconfigure(hist, a, entry, rng):
+    """between two fits the user changes some (plain) parameters: what the first fit learned under the old values must not
+    survive the second fit"""
+    plain = [(k, alts) for k, alts in entry.sets if not hasattr(alts[0](), "get_params") and not isinstance(alts[0](), list)]
+    rng.shuffle(plain)
+    for key, alts in plain[:2]:
+        if key in lifecycle.view_of(a):
+            hist.set(a, {key: alts[-1]()})
+
+
+def scenario(hist, entry, rng, variant=0):
+    a = entry.make(variant)
     hist.new(a)
     XA, yA = entry.data(rng)
     XB, yB = other_data(entry, rng)
@@ -35,6 +45,8 @@ def scenario(hist, entry, rng):
     okA, _ = lifecycle.do_fit(hist, a, XA, yA, entry, seedA, "A")
     if okA:
         lifecycle.observe_all(hist, a, entry, XA, "SeedDeterminism", note="first fit")
+    if rng.random() < 0.6:
+        reconfigure(hist, a, entry, rng)
     okB, _ = lifecycle.do_fit(hist, a, XB, yB, entry, seedB, "B")
     base = {k for k in vars(entry.make(0)) if k.endswith("_")}
     c = hist.clone(a, base)
@@ -72,9 +84,9 @@ def run(ctx):
             tid += 1
             hist = lifecycle.History(tid, "C03 " + entry.name, "A then B vs fresh clone on B")
             if entry.rowwise and entry.methods:
-                scenario(hist, entry, rng)
+                scenario(hist, entry, rng, rep % 2)
             else:
-                scenario_attrs_only(hist, entry, rng)
+                scenario_attrs_only(hist, entry, rng, rep % 2)
             ctx.case((entry.name, rep), sample=dict(kind="history", cls=entry.name,
                                                     events=[(e["a"], e.get("kind", e.get("method", "")), e.get("data", "")) for e in hist.t["ev"][:9]]))
             traces.append(hist.t)
@@ -88,14 +100,16 @@ def run(ctx):
     ctx.assumptions += ["seed kind per class (global NumPy seed / integer random_state / none) is the table in harness/classes.py"]
 
 
-def scenario_attrs_only(hist, entry, rng):
+def scenario_attrs_only(hist, entry, rng, variant=0):
     """transformers of targets / vectorizers: compare fitted attributes (permutations, vocabularies, categories)"""
-    a = entry.make(rng.randint(0, 1))
+    a = entry.make(variant)
     hist.new(a)
     XA, yA = entry.data(rng)
     XB, yB = entry.data(rng)
     s = rng.randint(0, 999)
     lifecycle.do_fit(hist, a, XA, yA, entry, s, "A")
+    if rng.random() < 0.5:
+        reconfigure(hist, a, entry, rng)
     okB, _ = lifecycle.do_fit(hist, a, XB, yB, entry, s, "B")
     c = hist.clone(a, {k for k in vars(entry.make(0)) if k.endswith("_")})
     if c is None or not okB:
